@@ -19,14 +19,21 @@ TWO_PI = 2 * math.pi
 def problem(precond):
     """Returns dict with bounds, periodic, preconditioning args."""
     p = {"parameters": ["a", "b"], "dims": 2}
-    if precond == "periodic":
+    if precond == "tight":
+        # prior box barely wider than the posterior: kernel proposals leave the support all the time
+        p["bounds"] = {"a": [0.2, 1.8], "b": [1.2, 2.8]}
+        p["periodic"] = None
+        p["flow"] = dict(mu=[1.0, 2.0], sigma=[0.5, 0.5])
+        p["like"] = gauss_loglike([1.0, 2.0], [0.7, 0.9])
+        p["preconditioning"], p["pk"] = "none", None
+    elif precond == "periodic":
         p["bounds"] = {"a": [-5.0, 5.0], "b": [0.0, TWO_PI]}
         p["periodic"] = ["b"]
         p["preconditioning"] = "default"
         p["pk"] = None
         p["flow"] = dict(mu=[0.5, 3.0], sigma=[1.5, 1.6])
         p["like"] = gauss_loglike([1.0, 2.5], [0.7, 0.9])
-    else:
+    elif precond != "tight":
         p["bounds"] = {"a": [-5.0, 5.0], "b": [-4.0, 6.0]}
         p["periodic"] = None
         p["flow"] = dict(mu=[0.5, 1.0], sigma=[2.5, 2.2])
